@@ -15,8 +15,8 @@ def sh(cmd, cwd=None, timeout=1500):
     return p.returncode, p.stdout.decode(errors="replace")
 run = open(os.path.join(src, "RUN.md")).read()
 demos = [f for f in os.listdir(src) if f.endswith("_test.go") or (f.endswith(".go") and f != "patch.diff")]
-m = re.search(r"^\s*cp\s+(\S+)\s+(\S+)", run, re.M)
-dest = m.group(2)
+m = re.search(r"^\s*cp\s+(.+)$", run, re.M)
+dest = m.group(1).split()[-1]
 dest = dest.replace("<tree>/", "")
 destdir = dest if not dest.endswith(".go") else os.path.dirname(dest)
 m = re.search(r"^\s*(go test [^\n]*)", run, re.M)
